@@ -139,8 +139,8 @@ CHECKS = {
              "fee <= maxFee, return holds its minimum ADA, loop termination. Tied to /repo by differential runs of the "
              "collateral step and whole builds, judged on decoded body bytes.",
         ref="3 C13", technique="Lean 4 proof (collateral invariants of the selection loop) + model/implementation correspondence",
-        note=TB + "explicit collateral supplied by the caller is passed through (judged for the limit only); recorded defect "
-                  "KF-C13-fee-buffer."),
+        note=TB + "explicit collateral supplied by the caller is passed through (judged for the limit only); adequacy is "
+                  "stated for every fee up to max_tx_fee + fee_buffer."),
     "C14": dict(
         text="Lean theorems over statement-by-statement models of LargestFirstSelector and RandomImproveMultiAsset for "
              "every pool, request, limit, flag combination and index stream: selection is a duplicate-free sub-list of the "
